@@ -198,7 +198,7 @@ def l1_cases(r, tier):
 # =================================================================== L2
 
 AGGS = ['Sum', 'Min', 'Max', 'Avg', 'Count', 'List', 'Set', 'ArgMin', 'ArgMax', 'ArgMinK', 'ArgMaxK', 'Array',
-        'Comb', 'CombL', 'Comb2', 'Multi', 'LitKey', 'LitKey1', 'Multi2', 'Multi2']
+        'Comb', 'CombL', 'Comb2', 'Multi', 'LitKey', 'LitKey1', 'Multi2', 'Multi2', 'StrCols']
 # Comb*: combine expressions in a rule body whose aggregated value is bound OUTSIDE the combine;
 # Multi: several aggregates in one head. Their results are per source row / per group records.
 # LitKey*: every grouping key is a literal and the body may select nothing (then: no row at all).
@@ -249,6 +249,14 @@ def reference_rows(rows, agg, thr=0):
     for k, g in groups.items():
       out.append([k, sum(v for v, _ in g), max(v for v, _ in g), len({w for _, w in g}),
                   sorted(w for _, w in g)])
+  elif agg == 'StrCols':
+    # string literals that spell the names of columns in scope ("v", "a", "w", and "value" / "key",
+    # which the unnesting of a list brings into scope) are still literals
+    groups = {}
+    for k, a, v, w in rows:
+      groups.setdefault(k, []).extend([a + 'v' + 'a' + x for x in ('value', 'w')])
+    for k, g in groups.items():
+      out.append([k, sorted(g)])
   elif agg == 'Multi2':
     # several extreme-seeking aggregates in ONE rule (one scan): each must follow its own row
     groups = {}
@@ -315,6 +323,8 @@ def agg_rule(agg, src, kk, src2=None, thr=0):
     return 'TCombL(k, a, l) :- %s, l List= (a :- x in Range(w + 1));' % body
   if agg == 'Comb2':
     return 'TComb2(k, a, s, n) :- %s, s += (v :- x in Range(w + 1)), n += (1 :- x in Range(w + 1));' % body
+  if agg == 'StrCols':
+    return 'TStrCols(k) List= a ++ "v" ++ "a" ++ x :- %s, x in ["value", "w"];' % body
   if agg == 'Multi2':
     return 'TMulti2(k:, best? ArgMax= a -> v, worst? ArgMin= a -> v, mw? Max= w, lo? Min= v) distinct :- %s;' % body
   if agg == 'LitKey':
@@ -410,7 +420,7 @@ def gen_scalars(r, n):
   cells = []
   ints = [0, 1, 2, 3, 5, 7, -1, -4, 10]
   lists = [[], [0], [3, 1, 2], [5, 5, 1], [2, 7, 1, 8], [-1, 0, 4]]
-  strs = ['', 'a', 'ab', 'a,b', 'x y', 'fire', '1,2,3', ',', '\u00e9', '\u00fc,\u00e9', '\u0436', 'a\\b']
+  strs = ['', 'a', 'ab', 'a,b', 'x y', 'fire', '1,2,3', ',', 'value', 'key', '\u00e9', '\u00fc,\u00e9', '\u0436', 'a\\b']
   for _ in range(n):
     f = r.choice(['Range', 'Size', 'Element', 'Subscript', 'Sort', 'ArrayConcat', 'Concat', 'Join',
                   'Split', 'ToString', 'ToInt64', 'Least', 'Greatest', 'Plus', 'Minus', 'Times',
@@ -768,7 +778,7 @@ def run_l2(case, scratch):
       return vs
     for agg in case['aggs']:
       hdr, rows = res['T' + agg]
-      if agg in ('Comb', 'CombL', 'Comb2', 'Multi', 'LitKey', 'LitKey1', 'Multi2'):
+      if agg in ('Comb', 'CombL', 'Comb2', 'Multi', 'LitKey', 'LitKey1', 'Multi2', 'StrCols'):
         got_rows = []
         for row in rows:
           row = [decode(x) for x in row]
@@ -776,6 +786,8 @@ def run_l2(case, scratch):
             row[4] = sorted(row[4]) if isinstance(row[4], list) else row[4]
           if agg == 'LitKey':
             row[3] = sorted(row[3]) if isinstance(row[3], list) else row[3]
+          if agg == 'StrCols':
+            row[1] = sorted(row[1]) if isinstance(row[1], list) else row[1]
           got_rows.append(row)
         got_rows = sorted(got_rows, key=repr)
         want_rows = reference_rows(case['rows'], agg, case.get('thr', 0))
